@@ -548,8 +548,12 @@ def meta_schema(meta):
     return ["scalar", type(meta).__name__]
 
 
-def observe(coll, what=("result", "divisions", "len", "name", "meta"), sort_rows=False):
-    """-> dict of canonical observations; an exception becomes {"error": [type, msg]} for that observation"""
+ORACLE_ORDER = ("result", "meta", "name", "divisions", "len")
+
+
+def observe(coll, what=ORACLE_ORDER, sort_rows=False):
+    """-> dict of canonical observations, evaluated IN THE ORDER of `what` (the fresh-interpreter oracle computes
+    the result first, on a process that has seen nothing else); an exception becomes {"error": type, "msg": …}."""
     out = {}
 
     def guard(key, fn):
@@ -558,19 +562,20 @@ def observe(coll, what=("result", "divisions", "len", "name", "meta"), sort_rows
         except Exception as e:  # noqa: BLE001
             out[key] = {"error": type(e).__name__, "msg": str(e)[:200]}
 
-    if "name" in what:
-        guard("name", lambda: coll._name)
-        guard("opt_name", lambda: coll.optimize()._name)
-    if "meta" in what:
-        guard("meta", lambda: meta_schema(coll._meta))
-    if "divisions" in what:
-        guard("divisions", lambda: canon_divisions(coll.divisions))
-        guard("opt_divisions", lambda: canon_divisions(coll.optimize().divisions))
-        guard("npartitions", lambda: int(coll.optimize().npartitions))
-    if "len" in what:
-        guard("len", lambda: int(len(coll)) if hasattr(coll, "__len__") and getattr(coll, "ndim", 0) > 0 else None)
-    if "result" in what:
-        guard("result", lambda: canon_result(coll.compute(), sort_rows))
+    for w in what:
+        if w == "name":
+            guard("name", lambda: coll._name)
+            guard("opt_name", lambda: coll.optimize()._name)
+        elif w == "meta":
+            guard("meta", lambda: meta_schema(coll._meta))
+        elif w == "divisions":
+            guard("divisions", lambda: canon_divisions(coll.divisions))
+            guard("opt_divisions", lambda: canon_divisions(coll.optimize().divisions))
+            guard("npartitions", lambda: int(coll.optimize().npartitions))
+        elif w == "len":
+            guard("len", lambda: int(len(coll)) if hasattr(coll, "__len__") and getattr(coll, "ndim", 0) > 0 else None)
+        elif w == "result":
+            guard("result", lambda: canon_result(coll.compute(), sort_rows))
     return out
 
 
@@ -604,7 +609,7 @@ def child_main():
         for it in job["items"]:
             try:
                 coll = build(it["qid"], job["pq"], it.get("variation"))
-                out[it["id"]] = observe(coll, tuple(it.get("what", ("result", "divisions", "len", "name", "meta"))),
+                out[it["id"]] = observe(coll, tuple(it.get("what", ORACLE_ORDER)),
                                         sort_rows=bool(flags(it["qid"]).get("sort_rows")))
             except Exception as e:  # noqa: BLE001
                 out[it["id"]] = {"build_error": type(e).__name__, "msg": str(e)[:200]}
